@@ -8,5 +8,9 @@ CONSTANTS
   MaxReq = 0
   MaxBatch = 0
   Hist = FALSE
+  Reps = {1}
+  CountHist = FALSE
+  GenBug = FALSE
+  GenMod = 256
   Deliveries = {"single", "pipelined", "fragmented"}
   SplitReg = FALSE
